@@ -114,6 +114,13 @@ def run(pid, check_fn, level, explanation, trusted_base=(), crates=("profirust",
     selftest_res = None
     if tier == "thorough" and selftest is not None:
         selftest_res = selftest()
+    seeds_res = None
+    if tier == "thorough" and not os.environ.get("VERIF_NO_SELFTEST"):
+        from . import selftest as _st
+        try:
+            seeds_res = _st.run_seeds(pid)
+        except Exception as e:  # informational only
+            seeds_res = {"error": str(e)}
 
     known = [k for k in load_known() if k.get("property") == pid]
     known_keys = {k["key"]: k for k in known if k.get("status") == "known"}
@@ -172,6 +179,8 @@ def run(pid, check_fn, level, explanation, trusted_base=(), crates=("profirust",
     }
     if selftest_res is not None:
         cov["selftest"] = selftest_res
+    if seeds_res is not None:
+        cov["seeded_changes"] = seeds_res
     ev = {
         "property_id": pid,
         "tier": tier,
